@@ -207,6 +207,55 @@ func runC04(c *run.Ctx) {
 			oracleC02(c, o)
 		})
 	}
+	// 2b. systematic absolute date-times in every supported spelling
+	nd := c.Pick(1500, 40000)
+	for i := 0; i < nd; i++ {
+		if h := c.NBatch / 2; h > 0 && i%h != c.Batch/2 {
+			continue
+		}
+		i := i
+		c.Case(fmt.Sprintf("date/%d", i), func() {
+			r := c.Rng("dates", i)
+			y := 1970 + r.Intn(131)
+			if r.Intn(6) == 0 {
+				y = []int{1970, 1972, 2000, 2024, 2037, 2038, 2039, 2100}[r.Intn(8)]
+			}
+			mo := 1 + r.Intn(12)
+			d := 1 + r.Intn(time.Date(y, time.Month(mo)+1, 0, 0, 0, 0, 0, time.UTC).Day())
+			if r.Intn(5) == 0 {
+				d = time.Date(y, time.Month(mo)+1, 0, 0, 0, 0, 0, time.UTC).Day() // last day of the month
+			}
+			hh, mi, ss := r.Intn(24), r.Intn(60), r.Intn(60)
+			if r.Intn(6) == 0 {
+				hh, mi, ss = []int{0, 23}[r.Intn(2)], []int{0, 59}[r.Intn(2)], []int{0, 59}[r.Intn(2)]
+			}
+			offH, offM := r.Intn(15), []int{0, 0, 30, 45}[r.Intn(4)]
+			sign := []string{"+", "-"}[r.Intn(2)]
+			forms := []string{
+				fmt.Sprintf("%04d-%02d-%02d", y, mo, d),
+				fmt.Sprintf("%04d-%02d-%02d %02d:%02d:%02d", y, mo, d, hh, mi, ss),
+				fmt.Sprintf("%04d-%02d-%02dT%02d:%02d:%02d", y, mo, d, hh, mi, ss),
+				fmt.Sprintf("%04d-%02d-%02dT%02d:%02d:%02dZ", y, mo, d, hh, mi, ss),
+				fmt.Sprintf("%04d-%02d-%02d %02d:%02d:%02d %s%02d%02d", y, mo, d, hh, mi, ss, sign, offH, offM),
+				fmt.Sprintf("%04d-%02d-%02dT%02d:%02d:%02d%s%02d:%02d", y, mo, d, hh, mi, ss, sign, offH, offM),
+				fmt.Sprintf("@%d", time.Date(y, time.Month(mo), d, hh, mi, ss, 0, time.UTC).Unix()),
+			}
+			txt := forms[r.Intn(len(forms))]
+			ts, ok := ref.RefStrtotime(txt, time.Local)
+			if !ok {
+				c.Violation("harness-date", "reference does not read its own spelling "+txt, nil)
+				return
+			}
+			tl := ref.Time(txt, ts)
+			e := ref.List(tl, ref.Call("strtotime", ref.Str(txt)))
+			pc := &ProgCase{ID: fmt.Sprintf("date/%d", i), Src: ref.Render(e), E: e, Env: bridge.NewEnv(), Back: []bridge.Backend{bridge.VM, bridge.Closure}}
+			c.Input(pc.Src)
+			o := RunProg(pc)
+			c.Distinct(txt + time.Local.String())
+			c.Count("date_times_checked", 1)
+			oracleC04(c, o)
+		})
+	}
 	// 3. random nested programs
 	opt := ref.GenOpt{MaxDepth: 5, PFail: 0.01, PSugar: 0.6, PBoundary: 0.1, PGroup: 0.03, UserFuns: true}
 	stream(c, "mixed", c.Pick(6000, 300000), opt, ref.UserFuns(), 0, oracleC04)
